@@ -607,7 +607,6 @@ func TestC20Race(t *testing.T) {
 	}
 }
 
-
 // replaySchedule re-executes one recorded schedule five times without search; observations must be identical.
 func replaySchedule(rep *vk.Report, scs []*Scenario, file string) {
 	raw, err := os.ReadFile(file)
